@@ -98,6 +98,10 @@ func makeSource(path string, tables []*srcTable) {
 	if err := h.UpdateSRS(custom); err != nil {
 		fatal("srs: %v", err)
 	}
+	// (... and whose optional description is NULL, as the GeoPackage standard allows)
+	if _, err := h.Exec(`UPDATE gpkg_spatial_ref_sys SET description = NULL WHERE srs_id = 100001`); err != nil {
+		fatal("srs: %v", err)
+	}
 	for _, t := range tables {
 		ddl := fmt.Sprintf(`CREATE TABLE "%s" (fid INTEGER NOT NULL PRIMARY KEY, %s);`, t.name, strings.Join(t.columnsDDL(), ", "))
 		if _, err := h.Exec(ddl); err != nil {
@@ -246,8 +250,9 @@ func dumpGpkgE(path string) (res map[string]*tableDump, err error) {
 	for _, name := range order {
 		td := out[name]
 		var orgID int
-		_ = db.QueryRow(`SELECT organization, organization_coordsys_id FROM gpkg_spatial_ref_sys WHERE srs_id = ?`, td.SrsID).Scan(&td.SrsOrg, &orgID)
-		td.SrsOrg = fmt.Sprintf("%s:%d", td.SrsOrg, orgID)
+		var srsName, srsDef string
+		_ = db.QueryRow(`SELECT organization, organization_coordsys_id, srs_name, definition FROM gpkg_spatial_ref_sys WHERE srs_id = ?`, td.SrsID).Scan(&td.SrsOrg, &orgID, &srsName, &srsDef)
+		td.SrsOrg = fmt.Sprintf("%s:%d:%s:%s", td.SrsOrg, orgID, srsName, srsDef)
 		var minx, miny, maxx, maxy *float64
 		var dt string
 		err := db.QueryRow(`SELECT data_type, min_x, min_y, max_x, max_y FROM gpkg_contents WHERE table_name = ?`, name).Scan(&dt, &minx, &miny, &maxx, &maxy)
